@@ -1,0 +1,110 @@
+//! Verification hooks (cargo feature `verif`): accessors to `App`'s private state and private
+//! block-execution steps. Everything here forwards to the real methods of `App`.
+
+use std::sync::Arc;
+
+use astria_eyre::eyre::{
+    Result,
+    WrapErr as _,
+};
+use cnidarium::{
+    Snapshot,
+    StateDelta,
+    Storage,
+};
+use tendermint::{
+    abci::Event,
+    AppHash,
+};
+
+use super::{
+    App,
+    BlockData,
+    InterBlockState,
+};
+use crate::{
+    authority::StateReadExt as _,
+    checked_actions::CheckedActionExecutionError,
+    checked_transaction::{
+        CheckedTransaction,
+        CheckedTransactionExecutionError,
+    },
+    verif::{
+        EndBlock,
+        TxOutcome,
+    },
+};
+
+impl App {
+    pub(crate) fn verif_state(&self) -> &StateDelta<Snapshot> {
+        &self.state
+    }
+
+    pub(crate) fn verif_new_state_delta(&self) -> StateDelta<InterBlockState> {
+        StateDelta::new(self.state.clone())
+    }
+
+    pub(crate) fn verif_apply(&mut self, state_delta: StateDelta<InterBlockState>) -> Vec<Event> {
+        self.apply(state_delta)
+    }
+
+    pub(crate) fn verif_app_hash(&self) -> Vec<u8> {
+        self.app_hash.as_bytes().to_vec()
+    }
+
+    pub(crate) fn verif_reset(&mut self, storage: &Storage) {
+        self.update_state_for_new_round(storage);
+    }
+
+    pub(crate) async fn verif_prepare_commit(&mut self, storage: Storage) -> Result<AppHash> {
+        self.prepare_commit(storage, Vec::new()).await
+    }
+
+    pub(crate) async fn verif_begin_block(
+        &mut self,
+        storage: &Storage,
+        height: tendermint::block::Height,
+        time: tendermint::Time,
+        proposer_address: tendermint::account::Id,
+    ) -> Result<Vec<astria_core::upgrades::v1::ChangeHash>> {
+        self.update_state_for_new_round(storage);
+        self.pre_execute_transactions(BlockData {
+            misbehavior: vec![],
+            height,
+            time,
+            next_validators_hash: tendermint::Hash::default(),
+            proposer_address,
+        })
+        .await
+    }
+
+    pub(crate) async fn verif_execute_transaction(
+        &mut self,
+        tx: Arc<CheckedTransaction>,
+    ) -> TxOutcome {
+        match self.execute_transaction(tx).await {
+            Ok(events) => TxOutcome::Executed(events),
+            Err(CheckedTransactionExecutionError::CheckedAction(
+                error @ CheckedActionExecutionError::NonFatalExecution {
+                    ..
+                },
+            )) => TxOutcome::FailedNonFatal(format!("{:#}", astria_eyre::eyre::Report::new(error))),
+            Err(error) => {
+                TxOutcome::FailedFatal(format!("{:#}", astria_eyre::eyre::Report::new(error)))
+            }
+        }
+    }
+
+    pub(crate) async fn verif_end_block(&mut self, height: u64) -> Result<EndBlock> {
+        let sudo_address = self
+            .state
+            .get_sudo_address()
+            .await
+            .wrap_err("failed to get sudo address from state")?;
+        let end_block = self.end_block(height, &sudo_address).await?;
+        Ok(EndBlock {
+            validator_updates: end_block.validator_updates,
+            events: end_block.events,
+        })
+    }
+}
